@@ -1,18 +1,25 @@
 #!/bin/bash
-# runs every seeded change against the quick check that is recorded as catching it; writes selftest/kill_matrix.json
+# runs every seeded change against the quick check that is recorded as catching it (first entry of detected_by_quick_checks
+# in its meta.json; normally its own property's - a few changes are caught by the check of a neighbouring property, see
+# DESIGN.md section 11); writes selftest/kill_matrix[_seed<N>].json.   usage: tools/kill_matrix.sh [lanes]
 cd /verif
+lanes=${1:-3}
 out=selftest/kill_matrix${VERIF_SEED:+_seed$VERIF_SEED}.json
-echo "{" > $out.tmp
-first=1
-for d in seeded/*/; do
-  n=$(basename $d)
-  # the check named first in the seeded change's meta.json (normally its own property's; a few changes are caught by
-  # the check of a neighbouring property, see DESIGN.md section 11)
-  id=$(/venv/bin/python -c "import json,sys; print(json.load(open(sys.argv[1]))['detected_by_quick_checks'][0])" $d/meta.json 2>/dev/null || echo ${n%%-*})
-  res=$(tools/try_mutant.sh $d/patch.diff $id 2>&1 | grep "^== " | head -1)
-  rc=$(echo "$res" | sed -E 's/.*exit=([0-9]+).*/\1/')
-  [ $first = 1 ] || echo "," >> $out.tmp; first=0
-  printf ' "%s": {"check": "%s", "quick_exit": %s, "killed": %s}' "$n" "$id" "${rc:-null}" "$([ "$rc" = 1 ] && echo true || echo false)" >> $out.tmp
-  echo "$n $res"
+tmp=$(mktemp -d /dev/shm/kill-XXXX)
+ls -d seeded/*/ | sed 's#seeded/##; s#/##' > $tmp/all
+split -n l/$lanes -d $tmp/all $tmp/lane
+for f in $tmp/lane*; do
+  (
+    while read n; do
+      grep -q '"neutralised_by"' seeded/$n/meta.json 2>/dev/null && continue     # no longer a behaviour change (see its meta.json)
+      id=$(/venv/bin/python -c "import json,sys; print(json.load(open(sys.argv[1]))['detected_by_quick_checks'][0])" seeded/$n/meta.json 2>/dev/null || echo ${n%%-*})
+      res=$(VERIF_WORKERS=${VERIF_WORKERS:-8} tools/try_mutant.sh seeded/$n/patch.diff $id 2>&1 | grep "^== " | head -1)
+      rc=$(echo "$res" | sed -E 's/.*exit=([0-9]+).*/\1/')
+      printf ' "%s": {"check": "%s", "quick_exit": %s, "killed": %s}\n' "$n" "$id" "${rc:-null}" "$([ "$rc" = 1 ] && echo true || echo false)" >> $f.out
+      echo "$n $res"
+    done < $f
+  ) &
 done
-echo "" >> $out.tmp; echo "}" >> $out.tmp; mv $out.tmp $out
+wait
+{ echo "{"; cat $tmp/lane*.out | sort | sed '$!s/$/,/'; echo "}"; } > $out
+rm -rf $tmp
